@@ -47,7 +47,7 @@ MANIFEST = {
              "test of 91937ff; former finding C03-gap-skip-ack). NO STALE WAITER, unbounded, every schedule: whenever the "
              "test holds nobody is parked, in particular once the reader proxy is gone (delete_datareader on the peer, "
              "deletion of its participant) every caller has been answered (repair 66b3297 of the former finding "
-             "C03-stale-waiter). COMPLETION while the reader stays matched, proved part (stage 1: KEEP_ALL, unfragmented, no removal, no deletion, at most 256 samples, "
+             "C03-stale-waiter). COMPLETION while the reader stays matched, proved part (ANY history QoS incl. KEEP_LAST histories with holes, unfragmented, no explicit removal, no deletion, at most 256 samples, "
              "at least one relevant sample): after healing rounds that drain the network plus one more, the "
              "acknowledgement test holds and no caller is parked (k + 2 heartbeat periods). The model is tied to the code by differential "
              "correspondence on a deterministic whole-stack simulation; the oracle (a success is followed by a take "
